@@ -120,8 +120,11 @@ taskreport {report_id} "{report_id}" {{
 """
 
     # Read original file first, so that a failure cannot leave a temporary file behind
-    with open(tjp_path) as f:
-        original_content = f.read()
+    try:
+        with open(tjp_path) as f:
+            original_content = f.read()
+    except (OSError, UnicodeDecodeError) as e:
+        raise FileNotFoundError(f"Cannot read file: {tjp_path} ({e})") from e
 
     # Create temporary file with random suffix (safe for concurrent execution)
     temp_fd, temp_path = tempfile.mkstemp(suffix=".tjp", prefix="plan_auto_")
@@ -308,8 +311,11 @@ def report(ctx: click.Context, tjp_file: Optional[str], output_csv: bool, output
             click.echo(f"Processing: {tjp_path.name}", err=True)
 
         # Calculate SHA256 hash of the input file for report_id
-        with open(tjp_path, "rb") as f:  # type: ignore[assignment]
-            file_hash = hashlib.sha256(f.read()).hexdigest()  # type: ignore[arg-type]
+        try:
+            with open(tjp_path, "rb") as f:  # type: ignore[assignment]
+                file_hash = hashlib.sha256(f.read()).hexdigest()  # type: ignore[arg-type]
+        except OSError as e:
+            raise FileNotFoundError(f"Cannot read file: {tjp_path} ({e})") from e
 
         if verbose:
             logger.debug("Input file SHA256: %s", file_hash)
